@@ -254,10 +254,14 @@ impl PendingSubscriptionSink {
 			Ok(SubscriptionSink {
 				inner: self.inner,
 				method: self.method,
-				subscribers: self.subscribers,
-				uniq_sub: self.uniq_sub,
-				unsubscribe: IsUnsubscribed(tx),
-				_permit: Arc::new(self.permit),
+				uniq_sub: self.uniq_sub.clone(),
+				unsubscribe: IsUnsubscribed(tx.clone()),
+				_active: Arc::new(ActiveSubscription {
+					subscribers: self.subscribers,
+					uniq_sub: self.uniq_sub,
+					unsubscribe: IsUnsubscribed(tx),
+					_permit: self.permit,
+				}),
 			})
 		} else {
 			panic!(
@@ -299,14 +303,30 @@ pub struct SubscriptionSink {
 	inner: MethodSink,
 	/// MethodCallback.
 	method: &'static str,
-	/// Shared Mutex of subscriptions for this method.
-	subscribers: Subscribers,
 	/// Unique subscription.
 	uniq_sub: SubscriptionKey,
 	/// A future to that fires once the unsubscribe method has been called.
 	unsubscribe: IsUnsubscribed,
-	/// Subscription permit
-	_permit: Arc<SubscriptionPermit>,
+	/// State shared by all clones of the sink (registration and subscription permit).
+	_active: Arc<ActiveSubscription>,
+}
+
+/// State shared by all clones of a [`SubscriptionSink`]: the subscription stays registered
+/// and keeps its slot until the last clone of the sink has been dropped.
+#[derive(Debug)]
+struct ActiveSubscription {
+	subscribers: Subscribers,
+	uniq_sub: SubscriptionKey,
+	unsubscribe: IsUnsubscribed,
+	_permit: SubscriptionPermit,
+}
+
+impl Drop for ActiveSubscription {
+	fn drop(&mut self) {
+		if !self.unsubscribe.is_unsubscribed() {
+			self.subscribers.lock().remove(&self.uniq_sub);
+		}
+	}
 }
 
 impl SubscriptionSink {
@@ -408,14 +428,6 @@ impl SubscriptionSink {
 
 	fn is_active_subscription(&self) -> bool {
 		!self.unsubscribe.is_unsubscribed()
-	}
-}
-
-impl Drop for SubscriptionSink {
-	fn drop(&mut self) {
-		if self.is_active_subscription() {
-			self.subscribers.lock().remove(&self.uniq_sub);
-		}
 	}
 }
 
